@@ -42,10 +42,10 @@ def deciding_kind(chain):
     return None
 
 
-def chain_of(case):
-    """the field's constraint chain as the schema reader built it (the same object kind the compiler was given)"""
+def chain_of(case, k=0):
+    """the k-th field's constraint chain as the schema reader built it (the same object kind the compiler was given)"""
     from octave_mcp.core.parser import parse
-    name = gbnf.field_name(case["fields"][0]["name"])
+    name = gbnf.field_name(case["fields"][k]["name"])
     if case["route"] == "FIELDS":
         from octave_mcp.core.schema_extractor import extract_schema_from_document
         sd = extract_schema_from_document(parse(gbnf.fields_doc(case)))
@@ -63,39 +63,43 @@ def chain_of(case):
 
 
 def compile_case(item):
-    """-> rules [{id, body(tree), case index, kind}] for one schema"""
+    """-> rules [{id, body(tree), kind, field index}] for one schema (every field whose chain is decided by a listed kind)"""
     i, case = item
     out = {"i": i, "case": case, "rules": [], "skipped": ""}
-    try:
-        chain = chain_of(case)
-    except Exception as e:
-        out["skipped"] = "schema not read: %s" % type(e).__name__
-        return out
-    kind = deciding_kind(chain)
-    if kind is None:
-        out["skipped"] = "chain not decided by a listed kind (read as %s)" % ([type(c).__name__ for c in chain.constraints] if chain is not None and chain.constraints else None)
-        return out
-    name = gbnf.field_name(case["fields"][0]["name"])
-    seen = set()
-    for ex, g in gbnf.grammars(case):
-        rules = gbnf.field_rules(g)
-        # the field's rule: the one whose body starts  "NAME" "::" ws
-        for rn, body in rules.items():
-            if len(body) >= 3 and body[0]["t"] == "LIT" and gbnf.unescape(body[0]["v"]) == name and body[1] == {"t": "LIT", "v": "::", "ok": True} \
-                    and body[2]["t"] == "NAME" and body[2]["v"] == "ws":
-                frag = body[3:]
-                key = json.dumps(frag)
-                if key in seen:
-                    continue
-                seen.add(key)
-                for v, plan in enumerate(gbnf.plans(frag)):
-                    tree = gbnf.parse_body(frag, plan)
-                    if tree is None:
-                        out["skipped"] = "rule body outside the tree language"
+    gs = None
+    for k, fld in enumerate(case["fields"]):
+        try:
+            chain = chain_of(case, k)
+        except Exception as e:
+            out["skipped"] = "schema not read: %s" % type(e).__name__
+            continue
+        kind = deciding_kind(chain)
+        if kind is None:
+            out["skipped"] = "chain not decided by a listed kind (read as %s)" % ([type(c).__name__ for c in chain.constraints] if chain is not None and chain.constraints else None)
+            continue
+        name = gbnf.field_name(fld["name"])
+        if gs is None:
+            gs = gbnf.grammars(case)
+        seen = set()
+        for ex, g in gs:
+            rules = gbnf.field_rules(g)
+            # the field's rule: the one whose body starts  "NAME" "::" ws
+            for rn, body in rules.items():
+                if len(body) >= 3 and body[0]["t"] == "LIT" and gbnf.unescape(body[0]["v"]) == name and body[1] == {"t": "LIT", "v": "::", "ok": True} \
+                        and body[2]["t"] == "NAME" and body[2]["v"] == "ws":
+                    frag = body[3:]
+                    key = json.dumps(frag)
+                    if key in seen:
                         continue
-                    gbnf.shrink(tree, 1500)
-                    out["rules"].append({"id": "%d/%s/%d" % (i, ex, v), "body": tree, "kind": kind,
-                                         "text": " ".join(t["v"] if t["t"] in ("LIT", "CLASS", "NAME") else t["t"] for t in frag)[:200]})
+                    seen.add(key)
+                    for v, plan in enumerate(gbnf.plans(frag)):
+                        tree = gbnf.parse_body(frag, plan)
+                        if tree is None:
+                            out["skipped"] = "rule body outside the tree language"
+                            continue
+                        gbnf.shrink(tree, 1500)
+                        out["rules"].append({"id": "%d/%d/%s/%d" % (i, k, ex, v), "body": tree, "kind": kind, "k": k,
+                                             "text": " ".join(t["v"] if t["t"] in ("LIT", "CLASS", "NAME") else t["t"] for t in frag)[:200]})
     return out
 
 
@@ -105,8 +109,8 @@ def replay(item):
     from octave_mcp.core.parser import parse
     from octave_mcp.mcp.validate import ValidateTool
 
-    case, w = d["case"], d["w"]
-    name = gbnf.field_name(case["fields"][0]["name"])
+    case, w, k = d["case"], d["w"], d.get("k", 0)
+    name = gbnf.field_name(case["fields"][k]["name"])
     rec = {"i": j, "rule": d["rule"], "read_ok": False, "key_ok": False, "chain_ok": False, "tool_ok": False, "w": w, "got": "", "err": ""}
     if case["route"] == "FIELDS":
         text = "===I===\nMETA:\n  TYPE::\"TEST\"\nGEN_G:\n  %s::%s\n===END===\n" % (name, w)
@@ -132,7 +136,7 @@ def replay(item):
     rec["got"] = "%s:%r" % (type(value).__name__, value)
     rec["got"] = rec["got"][:160]
     try:
-        chain = chain_of(case)
+        chain = chain_of(case, k)
         r = chain.evaluate(value=value, path=name)
         rec["chain_ok"] = bool(r.valid)
         if not r.valid:
@@ -151,7 +155,8 @@ def replay(item):
         try:
             r = run_async(_common.tool("validate").execute(content=text, schema="GEN_G"))
             errs = [e for e in (r.get("validation_errors") or []) if name in json.dumps(e)]
-            rec["tool_ok"] = r.get("validation_status") == "VALIDATED" and not errs
+            # in a two-field schema the other field is absent from this instance: only findings naming THIS field count
+            rec["tool_ok"] = (r.get("validation_status") == "VALIDATED" or len(case["fields"]) > 1) and not errs
             if not rec["tool_ok"] and not rec["err"]:
                 rec["err"] = "octave_validate: %s %s" % (r.get("validation_status"), json.dumps(r.get("validation_errors") or r.get("errors"))[:160])
         except Exception as e:
@@ -195,15 +200,17 @@ def run(ctx):
         pool = set(gbnf.C13_CHAINS) - {"req_const_empty", "req_const_null"}
         if not ctx.thorough:
             pool = {k for k in pool if not k.startswith("opt_")}
-        res = ctx.model("Gbnf", constants={"NamePool": NAMES if ctx.thorough else {"STATUS"}, "ChainPool": pool, "PairNames": set()},
-                        invariants=["EmitCase"], required_actions=["One"])
-        cases = [c for c in res.payload_lines() if not c["envelope"]]
+        # two-field schemas: literals that print alike but are of different kinds (member "1" / number 1, "True" / true, "None" / null)
+        res = ctx.model("Gbnf", constants={"NamePool": NAMES if ctx.thorough else {"STATUS"}, "ChainPool": pool, "PairNames": {"PRIORITY", "REVISION"},
+                                           "PairChains": {"enum_ints", "const_one", "enum_bool_like", "const_true", "enum_null", "const_null"}},
+                        invariants=["EmitCase"], required_actions=["One", "Two"])
+        cases = [c for c in res.payload_lines() if not c["envelope"] or len(c["fields"]) > 1]
         comp = engine.parallel_map(compile_case, list(enumerate(cases)), chunk=8)
         rules, by_id = [], {}
         for c in comp:
             for r in c["rules"]:
                 rules.append({"id": r["id"], "body": r["body"]})
-                by_id[r["id"]] = (c["case"], r["kind"], r["text"])
+                by_id[r["id"]] = (c["case"], r["kind"], r["text"], r["k"])
         if not rules:
             raise engine.Machinery("no field rule could be cut out of any compiled grammar")
         os.makedirs(ctx.scratch, exist_ok=True)
@@ -211,12 +218,12 @@ def run(ctx):
         with open(rf, "w", encoding="utf-8") as f:
             for r in rules:
                 f.write(json.dumps(r, ensure_ascii=True) + "\n")
-        res2 = ctx.model("Derive", tag="Derive", constants={"NamePool": set(), "ChainPool": set(), "PairNames": set()}, init="DInit", next_="DNext",
+        res2 = ctx.model("Derive", tag="Derive", constants={"NamePool": set(), "ChainPool": set(), "PairNames": set(), "PairChains": set()}, init="DInit", next_="DNext",
                          invariants=["EmitDerived"], required_actions=["DPick"], env={"RULES_FILE": rf}, heap="8g")
         derived = []
         for d in res2.payload_lines():
-            case, kind, rtext = by_id[d["rule"]]
-            derived.append({"case": case, "rule": d["rule"], "kind": kind, "rtext": rtext, "w": "".join(chr(c) for c in d["w"])})
+            case, kind, rtext, k = by_id[d["rule"]]
+            derived.append({"case": case, "rule": d["rule"], "kind": kind, "rtext": rtext, "k": k, "w": "".join(chr(c) for c in d["w"])})
         derived.sort(key=lambda d: (json.dumps(d["case"], sort_keys=True), d["rule"], d["w"]))
         recs = engine.parallel_map(replay, list(enumerate(derived)), chunk=200)
     finally:
@@ -227,7 +234,7 @@ def run(ctx):
     for r in recs:
         if r["i"] in fails:
             d = derived[r["i"]]
-            failures.append({"i": r["i"], "case": {"schema": d["case"], "chain": gbnf.chain_text(d["case"]["fields"][0]["chain"]), "rule": d["rtext"]},
+            failures.append({"i": r["i"], "case": {"schema": d["case"], "chain": gbnf.chain_text(d["case"]["fields"][d["k"]]["chain"]), "rule": d["rtext"]},
                              "kind": d["kind"], "w": d["w"], "obs": {k: r[k] for k in ("read_ok", "key_ok", "chain_ok", "tool_ok", "got", "err")},
                              "text": r["text"], "fails": fails[r["i"]]})
     skipped = [c for c in comp if not c["rules"]]
